@@ -561,7 +561,9 @@ func (x *fleetExec) c08Disk(e engine.Event) bool {
 			if cp.torn {
 				want = contentFromDoc(c, nd.spec.Store, nd.spec.N)
 			}
-			x.compareContentNamed(d, want, "success-implies-complete-blocks", sig, "restored checkpoint", !nd.exact() || !cp.torn)
+			// after a restore from a checkpoint torn between blocks the exact count (a statistics block)
+			// and the bins describe different prefixes; the count is then not comparable any more
+			x.compareContentNamed(d, want, "success-implies-complete-blocks", sig, "restored checkpoint", !nd.exact() || (!cp.torn && !cp.model.Lossy))
 			nd.real, nd.model = d, want
 			if cp.torn {
 				nd.model.Lossy = true
